@@ -34,12 +34,35 @@ type vline struct {
 	Case interface{} `json:"case"`
 }
 
+var hbMu sync.Mutex
+var hbLast time.Time
+var hbOut *bufio.Writer
+var hbOutMu *sync.Mutex
+
+// Heartbeat tells the parent that the current session is still making progress (a session that enumerates many executions
+// calls it once per execution; at most one line per second is written). No-op outside a worker.
+func Heartbeat() {
+	hbMu.Lock()
+	defer hbMu.Unlock()
+	if hbOut == nil || time.Since(hbLast) < time.Second {
+		return
+	}
+	hbLast = time.Now()
+	hbOutMu.Lock()
+	fmt.Fprintln(hbOut, "H")
+	hbOut.Flush()
+	hbOutMu.Unlock()
+}
+
 // Child runs sessions [lo,hi) given by the environment and exits.
 func Child(r *ev.Run, session func(i int)) {
 	lo, _ := strconv.Atoi(os.Getenv("VERIF_WORKER_LO"))
 	hi, _ := strconv.Atoi(os.Getenv("VERIF_WORKER_HI"))
 	out := bufio.NewWriter(os.Stdout)
 	var mu sync.Mutex
+	hbMu.Lock()
+	hbOut, hbOutMu = out, &mu
+	hbMu.Unlock()
 	r.OnViolation = func(sig, what string, c interface{}) {
 		b, _ := json.Marshal(vline{sig, what, c})
 		mu.Lock()
@@ -171,6 +194,11 @@ func runWorker(r *ev.Run, lo, hi int, dataFile string, perSession time.Duration)
 	for sc.Scan() {
 		line := sc.Text()
 		switch {
+		case line == "H":
+			select {
+			case progress <- struct{}{}:
+			default:
+			}
 		case strings.HasPrefix(line, "B "):
 			inflight, _ = strconv.Atoi(line[2:])
 			select {
